@@ -1632,7 +1632,10 @@ class Interp:
                 else:
                     ln = getattr(f, 'loop_node', None)
                     loop = Loop(list(f.binders), z_and(f.guard, *pending_guard), [],
-                                order=getattr(ln, 'order', None), unordered=getattr(ln, 'unordered', False))
+                                order=getattr(ln, 'order', None), unordered=getattr(ln, 'unordered', False),
+                                reverse=getattr(ln, 'reverse', False))
+                    if hasattr(ln, 'grouped_by'):
+                        loop.grouped_by = ln.grouped_by
                     cur.append(loop)
                 pending_guard = []
                 cur = loop.kids
